@@ -577,6 +577,15 @@ example : ((decodeSubset exA (zeros' 200)).toOption.map fun r =>
     ((wire exA r.1 >>= renderNested r.1) >>= nestedJsonToFlat).toOption == some r.1.vals) = some true := by
   decide +kernel
 
+/-- 206YYY in front of a local descriptor while an associated field is in force is inside (one S item, one node);
+    in front of a KNOWN element it is finding F11b and stays outside -/
+def exA206 : List Desc := [.op 204004, .elem (exE 31021 6), .op 206008, .undefElem 63250, .elem (exE 12001 12), .op 204000]
+def exF11b : List Desc := [.op 204004, .elem (exE 31021 6), .op 206008, .elem (exE 12001 12), .op 204000]
+
+example : wireLinksOK exA206 = true ∧ linkStatement exA206 (zeros' 100) = true := by decide +kernel
+example : wireLinksOK exF11b = false ∧ (decodeSubset exF11b (zeros' 100)).toOption.isSome = true ∧
+    linkStatement exF11b (zeros' 100) = false := by decide +kernel
+
 /-! ## Stage 3: the property statement over the union of the proved classes -/
 
 /-- the templates on which the link coder -> hierarchical view is proved -/
@@ -595,7 +604,9 @@ def C09.viewClass (t : List Desc) : Bool := quietList false t || quietList true 
     201 202 203 205 207 208 221) ∪ `quietList true` (the same without 203, with 204YYY + 031021 / 204000 over plain
     elements) ∪ `wireLinksOK` (elements, sequences, replications, 201 202 205 206 207 208, the bit-map operators
     222000 223000 224000 225000 232000 235000 236000 237000 237255, bit-map definitions by 031031 runs under fixed or
-    delayed replication, marker operators 22X255 / 232255, class 33 values after 222000).
+    delayed replication, marker operators 22X255 / 232255, class 33 values after 222000; round 4: 204YYY + 031021 /
+    204000 over plain elements and 206YYY + local descriptor, in stretches in which no bit-map construct, 203 or
+    class 33 element occurs while the field is in force).
     OUTSIDE, and why:
     * FALSE there (open findings, proved negations `exO2` in Props/C09.lean, `exF15`, `exAcross`, `exF11c`,
       `exNoMeaning`, `exSkipRep` above): 204 in force over a 203 definition, a 206 skip, a marker operator, 008023 /
@@ -604,10 +615,10 @@ def C09.viewClass (t : List Desc) : Bool := quietList false t || quietList true 
       (F-C07-wire-qa-across-operator); a stats marker without the 008023 / 008024 of its own operator (AttributeError,
       or an attribute cycle when an old meaning node is selected by the new bit-map); 206YYY in front of a
       replication / sequence / operator; 222YYY with YYY ≠ 0;
-    * TRUE but not proved: 221 or a 203 definition in a template that also has bit-map operators or 206; 204 in a
-      stretch of a template that elsewhere has bit-map operators (the two simulations are not merged: `quietList`
-      tracks the 204 stack and the 221 count, `wireLinksOK` the QA flags and links); a replication body that is not
-      a fixed point of the abstract interpretation after one round although every run of it is harmless.
+    * TRUE but not proved: 221 or a 203 definition in a template that also has bit-map operators or 206 (`quietList`
+      tracks the 221 count and the 203 mode, `wireLinksOK` the QA flags, links and - since round 4 - the 204 stack);
+      204 left open across a replication body (unbalanced use: `quietList true` only); a replication body that is
+      not a fixed point of the abstract interpretation after one round although every run of it is harmless.
     Compressed data: `C09_decode_compressed_nested_json_to_flat_partial` (quietList) and
     `C09_decode_compressed_links_nested_json_to_flat_partial` (wireLinksOK), every subset, under `Spec.sameCountsList`. -/
 theorem C09_decode_hierarchical_view (t : List Desc) (hq : C09.viewClass t = true) (bits rest : Bits) (o : SubsetOut)
